@@ -72,6 +72,16 @@ CHECKS = [
      "theorems; a lawful instance is exhibited); np.nanquantile(method='linear') by its documented formula; BCa nesting is "
      "evaluated, not proved; all-NaN components are outside the property.",
      "Lean 4 proof about a hand-written model + differential correspondence check", "DESIGN.md §5 C13"),
+ chk("C19",
+     "Lean theorems: FraudScores.make_eq / C19_refines (whenever construction succeeds the object IS Scores.make genuines "
+     "frauds easy counts <translated score_class, equal_class=pos>, hence cm at every threshold, thresholdAt for every "
+     "metric/method/target and swap coincide: C19_refines_cm / _thresholdAt / _swap), C19_validates (+_ok, _pointwise: "
+     "ValueError iff some score is <0 or >1, sorting irrelevant), C19_labels_inverse, C19_from_labels, C19_aliases. Tied to "
+     "/repo by comparing every query of a real FraudScores (ctor and from_labels; cm, 6 threshold_at_* x 3 methods, eer, "
+     "auc, swap, aliases, label translations) with a real Scores object and with the model, incl. values one ulp outside [0,1].",
+     BASE_NOTE + "The median-heuristic warning is not modelled; eer()/auc()/interior thresholds are tied to the real "
+     "Scores object (same code) rather than to the model; NaN/inf scores are outside the rational model.",
+     "Lean 4 proof about a hand-written model + differential correspondence check", "DESIGN.md §5 C19"),
 ]
 
 ALL = [f"C{i:02d}" for i in range(1, 21)]
